@@ -14,6 +14,7 @@ import (
 	"fmt"
 	"math"
 	"math/rand"
+	"os"
 	"strconv"
 	"strings"
 	"testing"
@@ -345,6 +346,7 @@ func TestValidator_XTEXT(t *testing.T) {
 		{"gsm7unpacked", func(s string) ([]byte, error) { return datacoding.GSM7Unpacked(s).Encode() }, func(b []byte) ([]byte, error) { return datacoding.GSM7Unpacked(b).Decode() }},
 	}
 	n := 0
+	quick := os.Getenv("VERIF_VALIDATOR_QUICK") != ""
 	try := func(c codec, s string) {
 		e, err := c.enc(s)
 		n++
@@ -353,6 +355,7 @@ func TestValidator_XTEXT(t *testing.T) {
 		}
 		d, err := c.dec(e)
 		if err != nil || string(d) != s {
+			t.Logf("VALIDATOR-FAIL A-XTEXT codec=%s input=%+q encoded=%x decoded=%+q err=%v", c.name, s, e, d, err)
 			t.Fatalf("A-XTEXT: %s does not invert on %+q: got %+q err=%v", c.name, s, d, err)
 		}
 		if c.name == "ucs2" {
@@ -372,19 +375,30 @@ func TestValidator_XTEXT(t *testing.T) {
 		if r >= 0xD800 && r <= 0xDFFF {
 			continue
 		}
+		if quick && r > 0xFFFF && r%61 != 0 && r != 0x10FFFF {
+			continue // quick tier: the whole BMP, every 61st supplementary value
+		}
 		for _, c := range cs {
 			if c.name == "gb18030" && r >= 0xE000 && r <= 0xE864 {
 				continue // carve-out stated by the property: the upstream table is not bijective on these private-use points
 			}
 			try(c, string(r))
-			if r < 0x3000 || r%97 == 0 {
+			if !quick && (r < 0x3000 || r%97 == 0) {
 				try(c, "a"+string(r)+"b")
+			}
+			if r >= 0xFE00 && r <= 0xFFFF {
+				try(c, string(r)+"ab") // byte-order-mark look-alikes in first position
+				try(c, "ab"+string(r))
 			}
 		}
 	}
 	rnd := rand.New(rand.NewSource(8))
 	pools := [][]rune{[]rune("abcXYZ019 @£$¥èéùìòÇØøÅå_^{}\\[~]|€ÆæßÉ"), []rune("中文短信测试，。！"), {0x1F600, 0x1F4A9, 0x10000, 0x10FFFF, 0xFFFD, 0xFEFF, 0xFFFE}, []rune("äöüÿþÐ\u0080\u009f ")}
-	for it := 0; it < 60000; it++ {
+	rounds := 60000
+	if quick {
+		rounds = 8000
+	}
+	for it := 0; it < rounds; it++ {
 		var sb strings.Builder
 		p := pools[rnd.Intn(len(pools))]
 		for k := rnd.Intn(12); k > 0; k-- {
@@ -400,6 +414,10 @@ func TestValidator_XTEXT(t *testing.T) {
 		for _, c := range cs {
 			try(c, s)
 		}
+	}
+	if quick {
+		ok(t, "A-XTEXT", n, "quick: every BMP scalar value and every 61st supplementary value alone x 4 codecs (GB18030 private-use carve-out U+E000..U+E864 skipped), U+FE00..U+FFFF also first and last of a 3-character string; 8000 random mixed strings")
+		return
 	}
 	ok(t, "A-XTEXT", n, "every Unicode scalar value alone (and in a 3-character context for the BMP below U+3000 and every 97th value) x 4 codecs, GB18030 private-use carve-out U+E000..U+E864 skipped; 6*10^4 random mixed strings")
 }
